@@ -77,6 +77,12 @@ def build_rules(rng, doc):
                 add("u", "%s.zz_missing exists" % q, path=jp, missing="zz_missing")
         elif isinstance(v, dict):
             add("u", "%s.zz_missing == 1" % q, path=jp, missing="zz_missing")
+            if rng.random() < 0.35:
+                # the missing key comes from a variable (documented key interpolation `a.%k`): the point reached is still this map
+                add("u", 'let mk = "zz_missing"\n    %s.%%mk == 1' % q, path=jp, missing="zz_missing")
+            for kx, vx in v.items():
+                if not isinstance(vx, (dict, list)) and kx and "/" not in kx and rng.random() < 0.15:
+                    add("s", 'let pk = %s\n    %s.%%pk == "%s"' % (gen.gstr(kx), q, NEVER), path=ser.jpath(p + (kx,)))
             if rng.random() < 0.3:
                 add("u", "%s.zz_missing.deeper exists" % q, path=jp, missing="zz_missing")
         else:
